@@ -112,6 +112,8 @@ def rule_R2(ctx, prj, w):
                     ctx.ok("R2", f.site(ec), f"{key}: exclusion spec = generate_exclude_spec(Path.cwd())")
                 else:
                     ctx.viol("R2", f"{key}/exclude-spec", f.site(ec), f"the exclusion spec is {spec_src[:80]}; required generate_exclude_spec(Path.cwd()) (what scan builds for the codebase root)")
+            elif kind in ("not-hidden", "flag", "language-supported"):
+                continue
             elif kind in ("excluded-only",):
                 ctx.viol("R2", f"{key}/inverted", f.site(g.test), "a file is checked only if it IS excluded")
             elif kind.startswith("other:"):
@@ -154,7 +156,10 @@ def rule_R3(ctx, prj):
         else:
             ctx.viol("R3", f"{f.local}/tokens", f.site(s["scan_file_node"]), f"{name}: scan_file receives {s['tokens_term'][:70]} instead of lex's result")
         lt = s["language_term"].replace(" ", "")
-        if lt.startswith("Languages.by_name[") and lt.endswith(".__class__.name]") and s["lexer"] in lt:
+        lx_t = term(f, s["lex_node"].args[0]).replace(" ", "") if s["lex_node"].args else s["lexer"]
+        ok_form = (lt.startswith("Languages.by_name[") and lt.endswith(".__class__.name]")) or \
+            (lt.startswith("Languages.by_name.get(") and lt.endswith(".__class__.name)"))
+        if ok_form and (s["lexer"] in lt or lx_t in lt):
             ctx.ok("R3", f.site(s["scan_file_node"]), f"{name}: language = {s['language_term']}")
         else:
             ctx.viol("R3", f"{f.local}/language", f.site(s["scan_file_node"]), f"{name}: language handed to scan_file is {s['language_term'][:70]}; required Languages.by_name[<lexer>.__class__.name]")
@@ -192,7 +197,9 @@ def rule_R4(ctx, prj):
     while isinstance(inner, ast.Call) and attr_chain(inner.func) in ("sorted", "list", "reversed") and inner.args:
         inner = inner.args[0]
     ok = False
-    if isinstance(inner, ast.ListComp) and len(inner.generators) == 1:
+    if isinstance(inner, ast.Name):
+        inner = expand(c, inner)
+    if isinstance(inner, (ast.ListComp, ast.GeneratorExp)) and len(inner.generators) == 1:
         g = inner.generators[0]
         src = unparse(expand(c, g.iter))
         ok = isinstance(inner.elt, ast.Name) and inner.elt.id == unparse(g.target) and "scan_file(" in src
@@ -218,15 +225,21 @@ def rule_R4(ctx, prj):
     fm = prj.func("codelimit.common.utils:format_measurement")
     mp = fm.params()[1]
     shown = {}
+    # everything that is turned into text: str(E) calls, and bare field reads handed to the text builder
     for call in fm.calls():
-        if isinstance(call.func, ast.Attribute) and call.func.attr == "append" and call.args:
-            a = call.args[0]
+        cands = []
+        if attr_chain(call.func) == "str" and call.args:
+            cands.append(call.args[0])
+        if isinstance(call.func, ast.Attribute) and call.func.attr in ("append", "assemble", "join", "format"):
+            for a in call.args:
+                cands.extend(a.elts if isinstance(a, ast.Tuple) else [a])
+        for a in cands:
             if isinstance(a, ast.Call) and attr_chain(a.func) == "str" and a.args:
                 a = a.args[0]
-            t = unparse(a)
-            if t.startswith(mp + "."):
+            t = term(fm, a)
+            if t.startswith(mp + ".") and all(ch.isalnum() or ch in "._" for ch in t):
                 shown[t] = call
-            elif mp in {x.id for x in ast.walk(a) if isinstance(x, ast.Name)} and not (isinstance(a, ast.Call) and prj.resolve_callee_name(fm, a).startswith("codelimit")):
+            elif isinstance(a, ast.BinOp) and mp in {x.id for x in ast.walk(expand(fm, a)) if isinstance(x, ast.Name)}:
                 ctx.viol("R4", "format_measurement/arithmetic", fm.site(call), f"format_measurement prints {t[:60]}, not a plain field of the measurement")
     need = [f"{mp}.start.line", f"{mp}.start.column", f"{mp}.value", f"{mp}.unit_name"]
     miss = [n for n in need if n not in shown]
